@@ -171,6 +171,19 @@ let () =
           if !found = None && model j k = obs_markers then found := Some (j, k)
         done
       done;
+      (* the harness stops collecting 300 us after a delivery that shows the latest record of A.  When the replay already
+         shows it while the event loop is still behind (j small), the events written before it are cut short: the
+         observation is then a proper PREFIX of the model's delivery that contains that latest record *)
+      (let last_a = match List.rev (List.filter (fun (w, _) -> w = "A") lg) with (_, m) :: _ -> Some ("A" ^ m) | [] -> None in
+       let rec is_prefix a b = match a, b with [], _ -> true | x :: a', y :: b' -> x = y && is_prefix a' b' | _ -> false in
+       match last_a with
+       | Some la when !found = None && List.mem la obs_markers ->
+         for k = wa to n do
+           for j = 0 to wa do
+             if !found = None && is_prefix obs_markers (model j k) then begin found := Some (j, k); stat "h.watch.cut-short-after-latest" end
+           done
+         done
+       | _ -> ());
       (match !found with
        | None -> mismatch id (Printf.sprintf "watch delivery not explained by Watch2: log=%s watchAt=%s delivered=%s" log watch_at dl)
        | Some (j, k) ->
